@@ -256,6 +256,15 @@ def main():
         jobs.sort(key=lambda j: -j[2])  # long ones first
     else:
         BUDGET["t0"], BUDGET["wall"] = time.time(), float(os.environ.get("VERIF_BUDGET_S", "1200"))
+        # every harness gets its turn, however many partitions the others have: round-robin over the (shuffled) per-harness queues
+        queues = {}
+        for j in jobs:
+            queues.setdefault(jobinfo[j[1]].name, []).append(j)
+        jobs = []
+        while any(queues.values()):
+            for q in queues.values():
+                if q:
+                    jobs.append(q.pop(0))
     with ThreadPoolExecutor(NPROC) as ex:
         results = list(ex.map(run_worker, jobs))
     not_scheduled = [r["func"] for r in results if r.get("skipped")]
